@@ -744,6 +744,10 @@ type c04Case struct {
 	ArgT2 *hx.TRef `json:"arg_type2,omitempty"`
 	W2    *hx.Val  `json:"written2,omitempty"`
 	First bool     `json:"b_first,omitempty"`
+	// Iface: the field is selected on the members of a list of interface type whose two
+	// implementers declare the arguments in different orders (1: a,b first; 2: b,a first); root
+	// resolver strategy, the members are Go structs bound to their types
+	Iface int `json:"iface,omitempty"`
 }
 
 // embedVars replaces some leaves of a literal by variables (nested channel); returns the new
@@ -790,7 +794,7 @@ func embedVars(t *rapid.T, s *hx.Schema, tr *hx.TRef, w hx.Val, defs *[]string, 
 func genCaseC04(t *rapid.T) *c04Case {
 	c := &c04Case{ArgT: genArgType(t, "T"), Strat: rapid.SampledFrom([]string{"R", "A", "X"}).Draw(t, "strategy")}
 	c.GoInputs = rapid.IntRange(0, 2).Draw(t, "goInputs") == 0
-	c.Channel = rapid.SampledFrom([]string{"literal", "literal", "literal", "var", "var", "default", "default", "nested", "nested", "omitted"}).Draw(t, "channel")
+	c.Channel = rapid.SampledFrom([]string{"literal", "literal", "literal", "var", "var", "default", "default", "nested", "nested", "omitted", "unset"}).Draw(t, "channel")
 	c.Mode = rapid.SampledFrom([]string{"good", "bad", "bad"}).Draw(t, "mode")
 	s := c04Schema(c.ArgT, nil)
 	g := &wgen{t: t, s: s, varCh: c.Channel == "var"}
@@ -846,9 +850,40 @@ func genCaseC04(t *rapid.T) *c04Case {
 		}
 		return c
 	}
+	if c.Channel == "unset" {
+		// the variable written for the argument has neither a value nor a default - while other
+		// variables declared before and after it have: it denotes null, whatever the others hold
+		c.Mode = "good"
+		c.W = hx.Nil()
+		c.ArgT2 = genArgType(t, "T2")
+		g2 := &wgen{t: t, s: c04Schema(c.ArgT, c.ArgT2), varCh: true}
+		w2 := g2.good(c.ArgT2, "w2")
+		c.W2 = &w2
+		pdef := "$p: " + c.ArgT2.String()
+		if !w2.IsNil() && rapid.Bool().Draw(t, "unsetOtherDefault") {
+			pdef += " = " + hx.ValueSDL(w2)
+		} else if !w2.IsNil() {
+			c.Vars = append(c.Vars, hx.KV{Key: "p", V: w2})
+		}
+		defs := []string{pdef, "$v: " + c.ArgT.String()}
+		if rapid.IntRange(0, 2).Draw(t, "unsetThird") == 0 {
+			// a variable of the argument's own type with a value, declared first and used by a sibling
+			if sv := g.good(c.ArgT, "unsetSib"); !sv.IsNil() {
+				defs = append([]string{"$q: " + c.ArgT.String()}, defs...)
+				c.Vars = append(c.Vars, hx.KV{Key: "q", V: sv})
+				c.Text = "query Q(" + strings.Join(defs, ", ") + ") { z w: f(a: $q) k: f(b: $p, a: $v) }"
+				return c
+			}
+		}
+		c.Text = "query Q(" + strings.Join(defs, ", ") + ") { z k: f(b: $p, a: $v) }"
+		return c
+	}
 	c.W = w
 	var second string
-	if rapid.IntRange(0, 3).Draw(t, "second") == 0 {
+	if c.Strat == "A" && rapid.IntRange(0, 2).Draw(t, "iface") == 0 {
+		c.Iface = rapid.IntRange(1, 2).Draw(t, "ifaceOrder")
+	}
+	if c.Iface > 0 || rapid.IntRange(0, 3).Draw(t, "second") == 0 {
 		c.ArgT2 = genArgType(t, "T2")
 		g2 := &wgen{t: t, s: c04Schema(c.ArgT, c.ArgT2)}
 		w2 := g2.good(c.ArgT2, "w2")
@@ -918,6 +953,9 @@ func genCaseC04(t *rapid.T) *c04Case {
 		head += "(" + strings.Join(defs, ", ") + ")"
 	}
 	c.Text = head + " { z k: f(" + args + ") }"
+	if c.Iface > 0 {
+		c.Text = head + " { z items { k: f(" + args + ") } }"
+	}
 	return c
 }
 
@@ -927,9 +965,30 @@ func (c *c04Case) world() (*Case, *hx.Schema) {
 		{ID: 0, Type: "", F: map[string]hx.Val{"query": hx.Ref(1)}},
 		{ID: 1, Type: "Query", F: map[string]hx.Val{"f": hx.Str("ok"), "z": hx.I32(5)}},
 	}}
+	if c.Iface > 0 {
+		ab := []*hx.Arg{{Name: "a", Type: c.ArgT}, {Name: "b", Type: c.ArgT2}}
+		ba := []*hx.Arg{{Name: "b", Type: c.ArgT2}, {Name: "a", Type: c.ArgT}}
+		s.Types = append(s.Types,
+			&hx.TypeDef{Kind: hx.KInterface, Name: "I", Fields: []*hx.Field{{Name: "f", Type: hx.Named("String"), Args: ab}}},
+			&hx.TypeDef{Kind: hx.KObject, Name: "P1", Interfaces: []string{"I"}, Fields: []*hx.Field{{Name: "f", Type: hx.Named("String"), Args: ab}}},
+			&hx.TypeDef{Kind: hx.KObject, Name: "P2", Interfaces: []string{"I"}, Fields: []*hx.Field{{Name: "f", Type: hx.Named("String"), Args: ba}}})
+		q := s.Type("Query")
+		q.Fields = append(q.Fields, &hx.Field{Name: "items", Type: hx.ListOf(hx.Named("I"))})
+		g.Nodes = append(g.Nodes, &hx.Node{ID: 2, Type: "P1", F: map[string]hx.Val{"f": hx.Str("ok")}}, &hx.Node{ID: 3, Type: "P2", F: map[string]hx.Val{"f": hx.Str("ok")}})
+		if c.Iface == 1 {
+			g.Nodes[1].F["items"] = hx.List(hx.Ref(2), hx.Ref(3))
+		} else {
+			g.Nodes[1].F["items"] = hx.List(hx.Ref(3), hx.Ref(2))
+		}
+	}
 	cs := &Case{Schema: s, Graph: g, Text: c.Text, Op: "Q", Vars: c.Vars, PrimeVars: c.Prime}
-	for range g.Nodes {
-		if c.Strat == "A" {
+	for _, n := range g.Nodes {
+		if c.Iface > 0 && n.ID >= 2 {
+			// Go structs bound to their object types (that is how ggql finds the definition of the
+			// member's own type), served by the root resolver
+			cs.Assign = append(cs.Assign, "AX")
+			cs.Register = append(cs.Register, n.Type)
+		} else if c.Strat == "A" {
 			cs.Assign = append(cs.Assign, "A")
 			cs.AnyInstalled = true
 		} else {
@@ -1006,6 +1065,9 @@ func checkC04(c *c04Case) (ds []hx.Discrepancy, verdict string, invoked bool) {
 		}
 		return
 	}
+	if !has && c.Channel == "unset" {
+		has, got = true, nil // a variable without a value: the argument may be left out
+	}
 	if !has {
 		add("argument-missing", "", "resolver invoked without the written argument a%s", ctx())
 		return
@@ -1040,7 +1102,7 @@ func TestC04(t *testing.T) {
 	run := hx.NewRun("C04")
 	defer run.Flush()
 	classes := func(c *c04Case, verdict string, invoked bool) (bool, []string) {
-		cl := []string{"channel=" + c.Channel, "strategy=" + c.Strat, "verdict=" + verdict, "base=" + c.ArgT.BaseName(), fmt.Sprintf("go-inputs=%v", c.GoInputs), fmt.Sprintf("parsed-request-resolved-before=%v", len(c.Prime) > 0),
+		cl := []string{"channel=" + c.Channel, "strategy=" + c.Strat, "verdict=" + verdict, "base=" + c.ArgT.BaseName(), fmt.Sprintf("go-inputs=%v", c.GoInputs), fmt.Sprintf("parsed-request-resolved-before=%v", len(c.Prime) > 0), fmt.Sprintf("on-interface-members-with-reordered-arguments=%v", c.Iface > 0),
 			c.ArgT.BaseName() + "/" + verdict + "/" + c.Channel}
 		if invoked {
 			cl = append(cl, "resolver-invoked")
